@@ -1,0 +1,6 @@
+//go:build !verif
+// +build !verif
+
+package mocker
+
+func verifHook(string, uintptr, uintptr) {}
